@@ -36,6 +36,7 @@
 //	on a crash clone: every data record up to the acknowledged watermark is
 //	  there (the record with the acknowledgement itself:            [acked-synced-lost];
 //	  an earlier no-sync record covered by a later acknowledgement: [unsynced-before-acked-lost])
+//	the read-back has no hole below a record that is present        [not-a-prefix]
 //	the logical reader ends with io.EOF or record.ErrUnexpectedEOF (what Open
 //	  tolerates for the newest WAL)                                 [reader-hard-error]
 //
@@ -51,6 +52,7 @@ import (
 	"math/rand/v2"
 	"os"
 	"runtime"
+	"runtime/debug"
 	"strings"
 	"sync"
 	"sync/atomic"
@@ -467,13 +469,13 @@ func verifC21GenScript(rng *rand.Rand) (verifC21Params, []verifC21Step) {
 			closed = true
 			continue
 		}
-		wWrite, wBurst, wSwitch := 34, 10, 9
+		wWrite, wBurst, wSwitch := 32, 13, 9
 		if closed {
 			wWrite, wBurst = 0, 0
 			wSwitch = 14
 		}
 		if hostileCur > 0 {
-			wSwitch *= 3
+			wSwitch *= 2
 		}
 		wUnblock := 0
 		if nBlocked > 0 {
@@ -493,7 +495,7 @@ func verifC21GenScript(rng *rand.Rand) (verifC21Params, []verifC21Step) {
 		case take(wWrite):
 			steps = append(steps, verifC21Step{Kind: "write", Sync: rng.Float64() < p.SyncProb})
 		case take(wBurst):
-			steps = append(steps, verifC21Step{Kind: "burst", N: 3 + rng.IntN(18)})
+			steps = append(steps, verifC21Step{Kind: "burst", N: 4 + rng.IntN(30)})
 		case take(wSwitch):
 			steps = append(steps, verifC21Step{Kind: "switch", Async: p.AsyncSwitch && rng.IntN(2) == 0})
 			switchCalls++
@@ -503,6 +505,11 @@ func verifC21GenScript(rng *rand.Rand) (verifC21Params, []verifC21Step) {
 				if blocked[curDir][o] {
 					hostileCur++
 				}
+			}
+			if rng.IntN(5) < 3 {
+				// usually give the new writer a chance to be created and installed
+				// before the next step (it is not, if its directory is stalled)
+				steps = append(steps, verifC21Step{Kind: "created"})
 			}
 		case take(wBlock):
 			d, o := pickDir(), pickOp()
@@ -586,9 +593,10 @@ type verifC21ReadBack struct {
 	segs     []verifC21Seg
 	physData int
 	dupTails int
+	physical bool
 }
 
-func verifC21ReadLogical(fs vfs.FS, wn NumWAL) (rb verifC21ReadBack, err error) {
+func verifC21ReadLogical(fs vfs.FS, wn NumWAL, physical bool) (rb verifC21ReadBack, err error) {
 	logs, err := Scan(Dir{FS: fs, Dirname: "pri"}, Dir{FS: fs, Dirname: "sec"})
 	if err != nil {
 		return rb, err
@@ -615,6 +623,10 @@ func verifC21ReadLogical(fs vfs.FS, wn NumWAL) (rb verifC21ReadBack, err error) 
 		rb.recs = append(rb.recs, verifC21Read{seq: uint64(h.SeqNum), count: h.Count, data: b, file: off.PhysicalFile})
 	}
 	_ = rr.Close()
+	if !physical {
+		return rb, nil
+	}
+	rb.physical = true
 
 	// Physical view of every segment, read the way the logical reader reads a
 	// segment (stop at the first error): evidence about duplicated tails.
@@ -639,7 +651,7 @@ func verifC21ReadLogical(fs vfs.FS, wn NumWAL) (rb verifC21ReadBack, err error) 
 				b, err = io.ReadAll(r)
 			}
 			if err != nil {
-				seg.Term = err.Error()
+				seg.Term = verifC21ErrName(err)
 				break
 			}
 			h, ok := batchrepr.ReadHeader(b)
@@ -670,6 +682,32 @@ func verifC21ReadLogical(fs vfs.FS, wn NumWAL) (rb verifC21ReadBack, err error) 
 		rb.segs = append(rb.segs, seg)
 	}
 	return rb, nil
+}
+
+// verifC21ErrName names the usual ends of a log cheaply (Error() of a
+// cockroachdb error runs regular expressions).
+func verifC21ErrName(err error) string {
+	switch {
+	case err == nil:
+		return "nil"
+	case err == io.EOF:
+		return "EOF"
+	case err == record.ErrUnexpectedEOF:
+		return "ErrUnexpectedEOF"
+	case err == record.ErrInvalidChunk:
+		return "ErrInvalidChunk"
+	case err == record.ErrZeroedChunk:
+		return "ErrZeroedChunk"
+	case errors.Is(err, io.EOF):
+		return "EOF"
+	case errors.Is(err, record.ErrUnexpectedEOF):
+		return "ErrUnexpectedEOF"
+	case errors.Is(err, record.ErrInvalidChunk):
+		return "ErrInvalidChunk"
+	case errors.Is(err, record.ErrZeroedChunk):
+		return "ErrZeroedChunk"
+	}
+	return err.Error()
 }
 
 type verifC21Finding struct {
@@ -728,6 +766,23 @@ func verifC21Compare(data []*verifC21Rec, bySeq map[uint64]int, rb []verifC21Rea
 		seen[j] = true
 		present++
 		j++
+	}
+	// The read-back is a prefix of the produced data records (a later segment
+	// starts at the queue tail, and everything before the tail is synced in an
+	// earlier segment): a hole below a record that is present means the logical
+	// WAL skipped a batch.
+	last := -1
+	for i := range data {
+		if seen[i] {
+			last = i
+		}
+	}
+	for i, d := range data {
+		if !seen[i] && i < last && !wantAll && d.idx > mustIdx {
+			add("not-a-prefix", fmt.Sprintf("batch seq=%d (produced #%d) is missing although the later batch seq=%d (produced #%d) is read back",
+				d.seq, d.idx, data[last].seq, data[last].idx), nil)
+			break
+		}
 	}
 	for i, d := range data {
 		if seen[i] {
@@ -1029,10 +1084,10 @@ func (s *verifC21Run) stepStrings() []string {
 func (s *verifC21Run) audit(fs vfs.FS, kind string, pct int, mustIdx int, wantAll bool) {
 	t0 := time.Now()
 	defer func() { s.tAudit += time.Since(t0) }()
-	if os.Getenv("VERIF_C21_NOAUDIT") != "" {
-		return
-	}
-	rb, err := verifC21ReadLogical(fs, NumWAL(s.p.WN))
+	// The per-segment physical pass (evidence about duplicated tails) doubles
+	// the reading cost; it runs for the final audits and a third of the others.
+	physical := kind != "crash" || s.rng.IntN(3) == 0
+	rb, err := verifC21ReadLogical(fs, NumWAL(s.p.WN), physical)
 	s.clones++
 	s.r.Count("audits_"+kind, 1)
 	ctx := func() map[string]any {
@@ -1047,10 +1102,7 @@ func (s *verifC21Run) audit(fs vfs.FS, kind string, pct int, mustIdx int, wantAl
 		if len(prod) > 400 {
 			prod = append(prod[:400], "...")
 		}
-		te := ""
-		if rb.term != nil {
-			te = rb.term.Error()
-		}
+		te := verifC21ErrName(rb.term)
 		return map[string]any{
 			"case": s.caseID, "params": s.p, "steps": s.stepStrings(), "steps_json": s.steps, "at_step": s.stepNow,
 			"audit": kind, "survival_pct": pct, "acked_max_index": mustIdx, "want_all": wantAll,
@@ -1067,25 +1119,29 @@ func (s *verifC21Run) audit(fs vfs.FS, kind string, pct int, mustIdx int, wantAl
 		s.maxSegs = len(rb.segs)
 	}
 	findings, present := verifC21Compare(s.data, s.bySeq, rb.recs, mustIdx, wantAll)
-	switch {
-	case rb.term == nil || errors.Is(rb.term, io.EOF):
+	switch en := verifC21ErrName(rb.term); en {
+	case "nil", "EOF":
 		s.r.SetAdd("reader_end", "EOF")
-	case errors.Is(rb.term, record.ErrUnexpectedEOF):
-		s.r.SetAdd("reader_end", "ErrUnexpectedEOF")
+	case "ErrUnexpectedEOF":
+		s.r.SetAdd("reader_end", en)
 		if wantAll {
 			s.r.Count("clean_close_reader_end_not_EOF", 1)
 		}
 	default:
-		s.r.SetAdd("reader_end", "hard:"+rb.term.Error())
+		s.r.SetAdd("reader_end", "hard:"+en)
 		findings = append(findings, verifC21Finding{"reader-hard-error",
-			fmt.Sprintf("logical reader ended with %q after %d records (audit %s, %d%% survival); Open fails on this", rb.term.Error(), len(rb.recs), kind, pct),
-			map[string]any{"err": rb.term.Error(), "audit": kind}})
+			fmt.Sprintf("logical reader ended with %q after %d records (audit %s, %d%% survival); Open fails on this", en, len(rb.recs), kind, pct),
+			map[string]any{"err": en, "audit": kind}})
 	}
 	for _, f := range findings {
 		s.violate(f, ctx())
 	}
 	s.r.Count("records_read_logical", int64(len(rb.recs)))
 	s.r.Count("records_matched", int64(present))
+	if !rb.physical {
+		return
+	}
+	s.r.Count("audits_with_physical_pass", 1)
 	if d := rb.physData - len(rb.recs); d > 0 {
 		s.r.Count("records_deduplicated_by_reader", int64(d))
 		s.deduped += d
@@ -1113,9 +1169,6 @@ func (s *verifC21Run) clone(pct int, kind string, wantAll bool) {
 	cfg := vfs.CrashCloneCfg{UnsyncedDataPercent: pct}
 	if pct > 0 {
 		cfg.RNG = rand.New(rand.NewPCG(s.rng.Uint64(), s.rng.Uint64()))
-	}
-	if os.Getenv("VERIF_C21_NOCLONE") != "" {
-		return
 	}
 	t0 := time.Now()
 	c := s.mem.CrashClone(cfg)
@@ -1296,7 +1349,10 @@ func TestVerifC21(t *testing.T) {
 		"injected fault / stall was actually hit by a file operation; distinct key = step list + segment/dup-tail/dedup counts")
 	r.Assume("crash model = vfs.MemFS.CrashClone (synced prefix of every file and synced directory entries survive; unsynced 4KiB blocks / entries survive independently)")
 	r.Assume("schedules are produced by the Go scheduler plus injected stalls/delays; they are explored, not enumerated")
-	n := vcommon.Scale(600, 24000)
+	n := vcommon.Scale(320, 9000)
+	// Many short-lived large objects (log blocks, reader buffers, queue
+	// buffers): a lazier GC saves a lot of race-detector bookkeeping.
+	defer debug.SetGCPercent(debug.SetGCPercent(600))
 	var totalUnder int64
 	r.Cases(n, func(i int, rng *rand.Rand) {
 		p, steps := verifC21GenScript(rng)
